@@ -133,6 +133,13 @@ def columnJ (c : ColumnCall) : Json :=
   Json.mkObj [("args", Json.arr (c.args.map argJ).toArray),
               ("kws", Json.arr (c.kws.map (fun kv => Json.arr #[str kv.1, valJ kv.2])).toArray)]
 
+def viewJ (v : Column) : Json :=
+  Json.mkObj [("name", optStr v.name), ("type", match v.colType with | some a => argJ a | none => Json.null),
+              ("foreign_key", optStr v.foreignKey), ("primary_key", Json.bool v.primaryKey), ("nullable", optBool v.nullable),
+              ("default", match v.default with | some d => Json.mkObj [("v", valJ d)] | none => Json.mkObj []),
+              ("server_default", match v.serverDefault with | some d => Json.mkObj [("v", valJ d)] | none => Json.mkObj []),
+              ("comment", optStr v.comment)]
+
 def optValJ : Option Val → Json
   | none => Json.mkObj []
   | some v => Json.mkObj [("v", valJ v)]
@@ -184,7 +191,9 @@ def ops : List (String × Handler) := [
     let name ← getChars j "name"
     let p ← paramOf (← j.getObjVal? "param")
     let incl ← getBool j "include_name"
-    return exceptJ columnJ (paramToColumn incl (name, p))),
+    return match paramToColumn incl (name, p) with
+      | .ok c => Json.mkObj [("ok", columnJ c), ("view", viewJ c.view)]
+      | .error e => Json.mkObj [("error", Json.str e)]),
   -- one `Column(…)` call → (name, ParamVal)
   ("c05.parse_column", fun j => do
     let c ← columnOf (← j.getObjVal? "column")
